@@ -91,6 +91,18 @@ def reading (s : Bytes) : Reading :=
     else if legalTarget22 t then .ok .binding h (.target t) bindingLockedPeriod
     else .undecodable h
 
+/-- what the wallet must report: a binding template whose target the consensus library cannot encode as
+    an address is, for the wallet, as unsupported as a script that matches no template -/
+def walletReading (s : Bytes) : Reading :=
+  match reading s with
+  | .undecodable _ => .unsupported
+  | r => r
+
+/-- a reading without its maturity (the library's address extraction and the API view carry none) -/
+def Reading.noMaturity : Reading → Reading
+  | .ok k h sec _ => .ok k h sec 0
+  | r => r
+
 /-! builders -/
 def wshScript (h : Bytes) : Bytes := [0x00, 0x20] ++ h
 def stakingScript (h : Bytes) (frozen : Nat) : Bytes := [0x00, 0x20] ++ h ++ [0x08] ++ leBytes 8 frozen
